@@ -48,6 +48,9 @@ def inputs(rng, sp):
             f = bytes([0x80 if rng.random() < 0.9 else rng.randrange(256)]) + n.to_bytes(4, "little") + \
                 bytes(rng.randrange(256) for _ in range(5)) + body
             out.append(([f[:rng.randrange(0, len(f) + 1)] if rng.random() < 0.1 else f], []))
+        for k in (1, 2, 256, 65535):      # dwLength right in the low 16 bits only
+            body = bytes(rng.randrange(256) for _ in range(3))
+            out.append(([b"\x80" + (len(body) + 65536 * k).to_bytes(4, "little") + bytes(5) + body], []))
     if sp.lean == "acr122_cmd_accept":
         for _ in range(120):
             cmd = rng.randrange(0, 255)
